@@ -1,5 +1,5 @@
 """C19 - a Timer fires exactly at its expiry, and stop/restart always take effect"""
-from . import tcp as T, kernel as K, elements, whomay
+from . import tcp as T, kernel as K, elements, whomay, deps
 
 def check(ctx):
     T.run_tables(ctx, 'C19', [('Timer', '__init__'), ('Timer', 'run'), ('Timer', 'wait'), ('Timer', 'stop'),
@@ -9,6 +9,7 @@ def check(ctx):
     elements.timer_no_self_interrupt(ctx, 'C19')
     elements.interrupt_guards_imply_precondition(ctx, 'C19')
     elements.class_method_sets(ctx, 'C19', only=('Timer',))
+    deps.element_layers(ctx, 'C19')
     return ('Static: Timer.__init__ (argument normalisation), run (sleep exactly until expire_time, callback iff not '
             'stopped with *args/**kwargs, re-arm iff auto_restart, interrupt ends silently), stop, restart (re-base, no '
             'self-interrupt, interrupt only a live process, always a new sleeper) compared with reference tables; call '
